@@ -3,6 +3,7 @@ import Verif.Model.MptEnc
 import Verif.Model.MptCodec
 import Verif.Model.MptPartial
 import Verif.Model.DeadNodes
+import Verif.Gen.Constants
 import Verif.Model.MptStore
 import Verif.Model.MptCache
 /-! Model driver for the codec suites c14, c15mpt, c17, c01cache (op languages: go/harness/suite_c14.go,
@@ -29,7 +30,11 @@ structure St where
   fc : Cache := {}                              -- c01cache: node cache of the trie opened by the last `cwarm fresh`
   selOrig : Bool := true                        -- c01cache: which of the two tries the c* ops go through
 
-def maxSize : Nat := 10 * 1024 * 1024
+/-- MPTMaxAllowableNodeSize, regenerated from the Go source (go/extract) -/
+def maxSize : Nat := Verif.Gen.Constants.mptMaxAllowableNodeSize
+
+/-- byte strings above 4 kB are printed as `#<length>:<SHA3-256>` (as the harness does) -/
+def hexBig (b : Bytes) : String := if b.length > 4096 then "#" ++ toString b.length ++ ":" ++ hex (sha3 b) else hex b
 
 def keyStr (k : Bytes) : String := if k.isEmpty then "-" else hex k
 
@@ -56,7 +61,7 @@ def fmtKeys (ks : List Bytes) : String :=
 
 def fmtEntries (es : List (Bytes × Bytes)) : String :=
   let es := es.mergeSort (fun a b => bytesLe a.1 b.1)
-  if es.isEmpty then "-" else ",".intercalate (es.map (fun e => hex e.1 ++ "=" ++ hex e.2))
+  if es.isEmpty then "-" else ",".intercalate (es.map (fun e => hex e.1 ++ "=" ++ hexBig e.2))
 
 def pathBytes (p : List Nib) : Bytes := p.map nibChar
 
@@ -268,6 +273,14 @@ def step (s : St) (w : List String) : St × String :=
       let (t', o) := Trie.delete s.v s.t p
       ({ s with t := t', used := pathBytes p :: s.used, touched := none, hist := (s.v, p, []) :: s.hist }, outcome t' o)
     | none => (s, "bad-op")
+  | ["insfill", p, n, fill] =>
+    match parsePath p with
+    | some p =>
+      let f := fill.toNat!
+      let b : Bytes := (List.range n.toNat!).map (fun j => UInt8.ofNat ((f + 31 * j) % 256))
+      let (t', o) := Trie.insert maxSize s.v s.t p b
+      ({ s with t := t', used := pathBytes p :: s.used, touched := none }, outcome t' o)
+    | none => (s, "bad-op")
   | ["insstr", p, b] =>
     match parsePath p, unhex b with
     | some p, some b =>
@@ -285,7 +298,7 @@ def step (s : St) (w : List String) : St × String :=
             | .ok (v, _) => if v.isEmpty then "-" else hex v
             | _ => "err"
           let vn := valueNode b
-          "ok " ++ hex b ++ " str=" ++ str ++ " vn=" ++ hex (encode vn) ++ " h=" ++ hex (sha3 (hashBytes vn)))
+          "ok " ++ hexBig b ++ " str=" ++ str ++ " vn=" ++ hexBig (encode vn) ++ " h=" ++ hex (sha3 (hashBytes vn)))
     | none => (s, "bad-op")
   | ["bulk", n, seed] =>
     let step := fun (acc : Node × Nat) (_ : Nat) =>
@@ -370,7 +383,7 @@ def step (s : St) (w : List String) : St × String :=
       ({ s with used := pathBytes p :: s.used,
                 hit := if s.snapped then (lookupMiss (ptOf s s.cur) (pathBytes p)).toList ++ s.hit else s.hit },
         if s.snapped then lresStr (lookupP (ptOf s s.cur) (pathBytes p))
-        else match lookup s.t p with | some b => "ok " ++ hex b | none => "notpresent")
+        else match lookup s.t p with | some b => "ok " ++ hexBig b | none => "notpresent")
     | none => (s, "bad-op")
   | ["iter"] =>
     let pt := ptOf s s.cur
